@@ -61,6 +61,9 @@ def load_known():
 def check(pid, tier, seed, only=None, jobs_n=None):
     t0 = time.time()
     os.makedirs(os.path.join(EVID, "replays"), exist_ok=True)
+    for f in os.listdir(os.path.join(EVID, "replays")):
+        if f.startswith(pid + "-"):
+            os.remove(os.path.join(EVID, "replays", f))
     modname = "harness." + pid
     sys.path.insert(0, VERIF)
     lines = []
@@ -98,7 +101,7 @@ def check(pid, tier, seed, only=None, jobs_n=None):
         if tier == "quick" and o.quick_shards is not None:
             shards = [shards[i] for i in o.quick_shards]
         for i, sh in shards:
-            jobs.append({"module": modname, "fn": o.name, "shard": sh, "timeout": o.timeout if tier == "quick" else getattr(o, "thorough_timeout", None) or o.timeout * (1 if o.tier == "quick" else 1), "twin": False})
+            jobs.append({"module": modname, "fn": o.name, "shard": sh, "timeout": o.timeout if tier == "quick" else o.thorough_timeout, "twin": False})
         if shards:
             jobs.append({"module": modname, "fn": o.name, "shard": shards[0][1], "timeout": min(o.timeout, 60), "twin": True})
     random.Random(seed).shuffle(jobs)
